@@ -336,7 +336,12 @@ def inAnotherChunk (cfg : Cfg) (k : Kind) (s : State) (L : Layout) (h : Hints) :
   | .chunk i =>
     match ← walkNext cfg k L h (s.chunks.length - (i+1)) i s with
     | (some (v, s'), _) => pure (s', .ok v)
-    | (none, s') => fresh s' (← appendFor cfg s' L)
+    | (none, s') =>
+      match ← appendFor cfg s' L with
+      -- the request failed: the allocator stays in the chunk it started in (fix c107ca6); the
+      -- successors that were walked keep their reset positions
+      | (s'', .error e) => pure ({ s'' with cur := .chunk i }, .error e)
+      | r => fresh s' r
 
 /-- `RawBump::{alloc, alloc_sized, alloc_slice, prepare_*}`: fast path, then the slow path.
     NB: the slow path of the typed fast paths uses a plain `Layout` (`CustomLayout` hints). -/
